@@ -107,6 +107,9 @@ impl Family {
         if self == Family::Fix { keylen } else { keylen + 1 }
     }
 }
+/// time allowed for one measured build (the largest quick-tier build takes about a second)
+pub const BUILD_SECONDS: u64 = 90;
+
 pub struct KeyGen {
     digits: Vec<u64>,
     key: Vec<u8>,
@@ -120,8 +123,27 @@ pub struct KeyGen {
     started: bool,
     pub maxlen: usize,
     pub prefix_keys: u64,
+    /// a build that is still running at this instant is cut short (see `expired`)
+    pub deadline: Option<std::time::Instant>,
+    calls: u64,
+    pub cut_short: bool,
 }
 impl KeyGen {
+    /// True once the time allowed for one measured build is over (looked at every 512 keys). The loops
+    /// that feed a builder stop then: a change that makes building quadratic must not hold the check
+    /// for half an hour, and what the builder holds at that moment is already the answer (a build
+    /// that is slow but within its memory bound is left undecided, not failed).
+    pub fn expired(&mut self) -> bool {
+        self.calls += 1;
+        if !self.cut_short && self.calls % 512 == 0 {
+            if let Some(d) = self.deadline {
+                if std::time::Instant::now() > d {
+                    self.cut_short = true;
+                }
+            }
+        }
+        self.cut_short
+    }
     /// increments uniform in 1..=avg where avg = fanout^keylen / (n + 2): n keys always fit
     pub fn new(family: Family, n: u64, fanout: u64, keylen: usize, seed: u64) -> KeyGen {
         let mut space: u128 = 1;
@@ -149,6 +171,9 @@ impl KeyGen {
             started: false,
             maxlen: 0,
             prefix_keys: 0,
+            deadline: None,
+            calls: 0,
+            cut_short: false,
         }
     }
     fn advance(&mut self) {
@@ -228,7 +253,7 @@ pub struct GenIter<'g> {
 impl<'g> Iterator for GenIter<'g> {
     type Item = (Vec<u8>, u64);
     fn next(&mut self) -> Option<(Vec<u8>, u64)> {
-        if self.left == 0 {
+        if self.left == 0 || self.g.expired() {
             return None;
         }
         self.left -= 1;
@@ -251,7 +276,7 @@ pub struct GenStream<'g> {
 impl<'a, 'g> fst::Streamer<'a> for GenStream<'g> {
     type Item = (&'a [u8], u64);
     fn next(&'a mut self) -> Option<(&'a [u8], u64)> {
-        if self.left == 0 {
+        if self.left == 0 || self.g.expired() {
             return None;
         }
         self.left -= 1;
@@ -286,6 +311,8 @@ pub struct Meas {
     pub emitted: u64,
     pub maxlen: usize,
     pub prefix_keys: u64,
+    /// the build was stopped at its deadline (fewer than n keys went in)
+    pub cut_short: bool,
 }
 
 thread_local! {
@@ -328,6 +355,7 @@ impl<'a> Cfg<'a> {
 pub fn measure_build(c: &Cfg, n: u64) -> Meas {
     use std::sync::atomic::Ordering::SeqCst;
     let mut g = KeyGen::new(c.family, n, c.fanout, c.keylen, c.seed);
+    g.deadline = Some(std::time::Instant::now() + std::time::Duration::from_secs(BUILD_SECONDS));
     VALUE_SHAPE.with(|v| v.set(c.seed / 12));
     mem::reset();
     let mut m = match c.kind {
@@ -340,6 +368,9 @@ pub fn measure_build(c: &Cfg, n: u64) -> Meas {
             mem::reset_peak();
             let h = crate::hooks::stats_handle(&b).unwrap_or_else(|| std::panic::panic_any(crate::hooks::NoHook));
             for i in 0..n {
+                if g.expired() {
+                    break;
+                }
                 let k = g.next();
                 let r = if c.kind == "map" { b.insert(k, value_of(i)) } else { b.add(k) };
                 if r.is_err() {
@@ -369,6 +400,9 @@ pub fn measure_build(c: &Cfg, n: u64) -> Meas {
             match (c.seed / 4) % 3 {
                 0 => {
                     for _ in 0..n {
+                        if g.expired() {
+                            break;
+                        }
                         if b.insert(g.next()).is_err() {
                             panic!("builder rejected a generated key");
                         }
@@ -395,6 +429,9 @@ pub fn measure_build(c: &Cfg, n: u64) -> Meas {
             match (c.seed / 4) % 3 {
                 0 => {
                     for i in 0..n {
+                        if g.expired() {
+                            break;
+                        }
                         if b.insert(g.next(), value_of(i)).is_err() {
                             panic!("builder rejected a generated key");
                         }
@@ -418,6 +455,7 @@ pub fn measure_build(c: &Cfg, n: u64) -> Meas {
     };
     m.maxlen = g.maxlen;
     m.prefix_keys = g.prefix_keys;
+    m.cut_short = g.cut_short;
     m
 }
 
@@ -604,6 +642,9 @@ impl Prop for P {
                 let mut x = String::from("ok");
                 if !within {
                     x = format!("peak={} bound={} after_new={} misses={} emitted={}", m.peak, bound, m.peak_new, m.misses, m.emitted);
+                } else if m.cut_short {
+                    // stopped at the deadline within its bound: undecided, not a failure (recorded in the log)
+                    crate::common::xcount("c13_build_cut_short_at_deadline");
                 } else if hooked(c.kind) && (m.misses + m.rejected) * 8 < n {
                     // the family must keep producing nodes the cache has not seen
                     x = format!("degenerate family: only {} new nodes for {} keys", m.misses + m.rejected, n);
@@ -641,6 +682,9 @@ impl Prop for P {
                 let mut x = String::from("ok");
                 if !sat {
                     x = format!("peak({})={} peak({})={} limit={}", n1, m1.peak, n2, m2.peak, limit);
+                } else if m1.cut_short || m2.cut_short {
+                    // a build stopped at its deadline while saturated and within the bound: undecided
+                    crate::common::xcount("c13_build_cut_short_at_deadline");
                 } else if hooked(c.kind) && (new2 - new1.min(new2)) * 8 < n2 - n1 {
                     x = format!("degenerate family: new nodes {} -> {}", new1, new2);
                 } else if m2.peak > bound || m1.peak > bound {
